@@ -52,7 +52,7 @@ func runC14(c *Ctx) error {
 				sums   [][32]byte
 				tag    string
 			}
-			var recent []given    // payloads of the last calls: must stay intact across LATER calls too
+			var recent []given     // payloads of the last calls: must stay intact across LATER calls too
 			var originals [][]byte // private copies of every data payload that was accepted, in call order
 			for _, n := range sizes {
 				for _, api := range apis {
